@@ -112,6 +112,14 @@ let () =
                    (List.init (String.length script) (String.get script)) in
                Some (Some (s_retain before keep))
              | ["push"; cp] -> Some (Some (s_push before (n_of_string cp)))
+             | ["push_str"; t] -> Some (Some (s_push_str before (bytes_of_hex t)))
+             | ["extend"; t] ->
+               (* the driver extends by the chars of t: decode them with the model, push them one by one *)
+               let cps = List.map decode (chars (bytes_of_hex t)) in
+               if List.for_all (fun c -> c <> None) cps
+               then Some (Some (s_extend before (List.filter_map (fun c -> c) cps))) else None
+             | ["clear"] -> Some (Some [])
+             | ["clone"] | ["shrink_to_fit"] -> Some (Some before)
              | ["insert"; i; cp] -> (match s_insert before (n_of_string i) (n_of_string cp) with SRet s -> Some (Some s) | SPanic -> Some None)
              | ["truncate"; n] -> (match s_truncate before (n_of_string n) with SRet s -> Some (Some s) | SPanic -> Some None)
              | ["insert_str"; i; t] -> (match s_insert_str before (n_of_string i) (bytes_of_hex t) with SRet s -> Some (Some s) | SPanic -> Some None)
